@@ -696,8 +696,8 @@ Definition at_token (idx : nat) (s : inp) : option (tok * inp * nat) :=
           | _ :: _, 123 :: r => Some (TRecB (u8 idr), r, idx)
           | _ :: _, 91 :: r =>
               if forallb is_dec idr then
-                (* custom binary: parseSmallUint = ParseUint(text, 0, 64) *)
-                match CteLit.go_parse_uint idr 0 64, bytes_body r with
+                (* custom binary: parseSmallUint = ParseUint(text, 10, 64) (fix 601f9e0; was base 0) *)
+                match CteLit.go_parse_uint idr 10 64, bytes_body r with
                 | Some ct, Some (data, rest) => Some (TVal (ECustomBin ct data), rest, idx)
                 | _, _ => None
                 end
@@ -708,7 +708,7 @@ Definition at_token (idx : nat) (s : inp) : option (tok * inp * nat) :=
                 end
           | _ :: _, 34 :: r =>
               if forallb is_dec idr then
-                match CteLit.go_parse_uint idr 0 64, lex_string idx r with
+                match CteLit.go_parse_uint idr 10 64, lex_string idx r with
                 | Some ct, Some (data, rest, idx') => Some (TVal (ECustomText ct data), rest, idx')
                 | _, _ => None
                 end
